@@ -6,7 +6,7 @@
    relabel as a whole, relabelDisjointFrom, Betti invariance. *)
 From Coq Require Import String ZArith Bool Arith List.
 From SV Require Import Names NamesFacts ListFacts Rep Fresh Complex Atomic RepInv Reach RelabelProofs Homology RelabelAll RelabelPhi.
-From SV Require ClosedReach AttrInv.
+From SV Require ClosedReach AttrInv BulkRenamed Shapes.
 Import ListNotations.
 
 Theorem C15_one_rename_carries_structure_partial :
@@ -94,3 +94,24 @@ Theorem C15_attributes_follow_the_names :
   forall s, containsSimplex r s = true -> assoc (memo_of st s) (r_attr r') = assoc s (r_attr r).
 Proof. exact AttrInv.relabel_attrs_follow. Qed.
 Print Assumptions C15_attributes_follow_the_names.
+
+(* BULK ADD UNDER A RENAMING (a dict or a function, asked once per simplex and remembered): an accepted
+   addSimplicesFrom inserts a copy of the source along phi = "the name the renaming gave s, s itself if it was never
+   asked" (the final memo): every source simplex s arrives as phi(s) with its order and with faces phi(faces of s); the
+   receiver's own simplices keep name, order, position, faces and points; membership is old + phi(source); the list
+   returned is phi of the source's listing.  (Ownership of the new dictionaries: C09_bulk_add_keeps_ownership.) *)
+Theorem C15_bulk_add_under_a_renaming :
+  forall rn, rn <> RNone -> forall (src : srcview) hp r st ns hp' r' st' ns',
+  Shapes.sinv r -> addFrom_loop hp r rn st src ns = (hp', r', st', Ok ns') ->
+  let phi := memo_of st' in
+  Shapes.sinv r' /\ BulkRenamed.grows st st' /\
+  (forall s fs h, In (s, (fs, h)) src ->
+     containsSimplex r' (phi s) = true /\ orderOf r' (phi s) = Ok (length fs - 1) /\
+     (forall t, In t (faces r' (phi s)) <-> In t (map phi fs))) /\
+  (forall s, containsSimplex r s = true ->
+     containsSimplex r' s = true /\ orderOf r' s = orderOf r s /\ indexOf r' s = indexOf r s /\
+     faces r' s = faces r s /\ basisOf r' s = basisOf r s) /\
+  (forall s, containsSimplex r' s = containsSimplex r s || memn s (map phi (map fst src))) /\
+  ns' = ns ++ map phi (map fst src).
+Proof. exact BulkRenamed.bulk_add_renamed. Qed.
+Print Assumptions C15_bulk_add_under_a_renaming.
